@@ -72,39 +72,39 @@ Qed.
 (** [P i] restricts which indices may be keys of the map (used twice: with
     the trivial bound for safety, with liveness of the member for the
     blocked-run theorem). *)
-Definition m_ok (P : nat -> Prop) (n : nat) (m : list (nat * sigval)) : Prop :=
+Definition m_ok (v : variant) (P : nat -> Prop) (n : nat) (m : list (nat * sigval)) : Prop :=
   NoDup (map fst m) /\ (length m <= maj_m n - 1)%nat /\
-  Forall (fun e => sv_by (snd e) = fst e /\ (fst e + 1 < n)%nat /\ P (fst e)) m.
+  Forall (fun e => sv_by (snd e) = fst e /\ (fst e < v_first v + (n - 1))%nat /\ P (fst e)) m.
 
 (** The remote part of the witness is either not appended yet or the result
     of one finalisation. *)
-Definition script_ok (P : nat -> Prop) (n : nat) (sc : list sigval) : Prop :=
+Definition script_ok (v : variant) (P : nat -> Prop) (n : nat) (sc : list sigval) : Prop :=
   sc = [] \/
   (length sc = (maj_m n - 1)%nat /\ NoDup (map sv_by sc) /\
-   Forall (fun s => (sv_by s + 1 < n)%nat /\ P (sv_by s)) sc).
+   Forall (fun s => (sv_by s < v_first v + (n - 1))%nat /\ P (sv_by s)) sc).
 
-Definition linv (P : nat -> Prop) (n : nat) (l : leader) : Prop :=
-  (l_full l = false -> l_script l = []) /\ m_ok P n (l_m l) /\ script_ok P n (l_script l).
+Definition linv (v : variant) (P : nat -> Prop) (n : nat) (l : leader) : Prop :=
+  (l_full l = false -> l_script l = []) /\ m_ok v P n (l_m l) /\ script_ok v P n (l_script l).
 
-Lemma m_ok_nil P n : m_ok P n [].
+Lemma m_ok_nil v P n : m_ok v P n [].
 Proof. split; [constructor|]. split; [simpl; lia|constructor]. Qed.
 
-Lemma linv_leader0 P n : linv P n leader0.
+Lemma linv_leader0 v P n : linv v P n leader0.
 Proof. split; [reflexivity|split; [apply m_ok_nil|left; reflexivity]]. Qed.
 
-Lemma linv_reset P n l : linv P n (reset_tx l).
+Lemma linv_reset v P n l : linv v P n (reset_tx l).
 Proof. split; [reflexivity|split; [apply m_ok_nil|left; reflexivity]]. Qed.
 
 (** Chain-side premise of the collection loop: which indices may be inserted. *)
 Definition recs_ok (P : nat -> Prop) (c : chain) : Prop :=
   forall i r, lookup_sig c i = LRecord r -> sv_by (sr_sig r) = i -> P i.
 
-Lemma collect_step_ok P n c d m inv i :
-  recs_ok P c -> (i + 1 < n)%nat ->
-  m_ok P n m -> (length m < maj_m n - 1)%nat ->
+Lemma collect_step_ok v P n c d m inv i :
+  recs_ok P c -> (i < v_first v + (n - 1))%nat ->
+  m_ok v P n m -> (length m < maj_m n - 1)%nat ->
   match collect_step n c d (maj_m n - 1) m inv i with
-  | CContinue m' _ => m_ok P n m' /\ (length m' < maj_m n - 1)%nat
-  | CBreak m' => m_ok P n m'
+  | CContinue m' _ => m_ok v P n m' /\ (length m' < maj_m n - 1)%nat
+  | CBreak m' => m_ok v P n m'
   | CRegenerate => True
   end.
 Proof.
@@ -117,9 +117,9 @@ Proof.
   2:{ destruct (n <? S inv + maj_m n)%nat; [exact I|]. split; [split; [|split]|]; assumption. }
   apply bool_decide_eq_true in Eb.
   pose proof (m_insert_length i (sr_sig r) m) as Hl.
-  assert (Hok : m_ok P n (m_insert i (sr_sig r) m) \/ True) by (right; exact I). clear Hok.
+  assert (Hok : m_ok v P n (m_insert i (sr_sig r) m) \/ True) by (right; exact I). clear Hok.
   assert (Hm : NoDup (map fst (m_insert i (sr_sig r) m)) /\
-               Forall (fun e => sv_by (snd e) = fst e /\ (fst e + 1 < n)%nat /\ P (fst e))
+               Forall (fun e => sv_by (snd e) = fst e /\ (fst e < v_first v + (n - 1))%nat /\ P (fst e))
                       (m_insert i (sr_sig r) m)).
   { split; [apply m_insert_NoDup; exact Hnd|].
     apply List.Forall_forall. intros e He. apply m_insert_In in He as [->|He].
@@ -131,32 +131,32 @@ Proof.
   - apply Nat.eqb_neq in E. split; [split; [exact Hnd'|split; [lia|exact Hall']]|lia].
 Qed.
 
-Lemma collect_loop_ok P n c d is : forall m inv,
-  recs_ok P c -> Forall (fun i => (i + 1 < n)%nat) is ->
-  m_ok P n m -> (length m < maj_m n - 1)%nat ->
+Lemma collect_loop_ok v P n c d is : forall m inv,
+  recs_ok P c -> Forall (fun i => (i < v_first v + (n - 1))%nat) is ->
+  m_ok v P n m -> (length m < maj_m n - 1)%nat ->
   match collect_loop n c d (maj_m n - 1) m inv is with
-  | CContinue m' _ => m_ok P n m' /\ (length m' < maj_m n - 1)%nat
-  | CBreak m' => m_ok P n m'
+  | CContinue m' _ => m_ok v P n m' /\ (length m' < maj_m n - 1)%nat
+  | CBreak m' => m_ok v P n m'
   | CRegenerate => True
   end.
 Proof.
   induction is as [|i is IH]; intros m inv Hc His Hm Hlt; cbn [collect_loop]; [split; assumption|].
   apply Forall_cons_1 in His as [Hi His].
-  pose proof (collect_step_ok P n c d m inv i Hc Hi Hm Hlt) as Hs.
+  pose proof (collect_step_ok v P n c d m inv i Hc Hi Hm Hlt) as Hs.
   destruct (collect_step n c d (maj_m n - 1) m inv i) as [m' inv'| m' |]; [|exact Hs|exact I].
   destruct Hs as [Hm' Hlt']. apply IH; assumption.
 Qed.
 
-Lemma seq_bound n : Forall (fun i => (i + 1 < n)%nat) (seq 0 (n - 1)).
+Lemma seq_bound v n : Forall (fun i => (i < v_first v + (n - 1))%nat) (seq (v_first v) (n - 1)).
 Proof. apply List.Forall_forall. intros i Hi. apply in_seq in Hi. lia. Qed.
 
 (** * What a tick may do *)
 
-Definition assembled_ok (n : nat) (d : data) (script : list sigval) : Prop :=
+Definition assembled_ok (v : variant) (n : nat) (d : data) (script : list sigval) : Prop :=
   length script = maj_m n /\
   hd_error script = Some (mkSig 0 d) /\
   NoDup (map sv_by (tail script)) /\
-  Forall (fun s => (sv_by s + 1 < n)%nat) (tail script).
+  Forall (fun s => (sv_by s < v_first v + (n - 1))%nat) (tail script).
 
 Definition is_designate (w : write) : bool :=
   match w with WDesignate _ _ => true | _ => false end.
@@ -171,14 +171,14 @@ Definition sent_ok (P : nat -> Prop) (w : write) : Prop :=
   | _ => True
   end.
 
-Record tick_ok (P : nat -> Prop) (n : nat) (c : chain) (c' : chain) (l' : leader) (ev : list event) : Prop := {
-  to_linv : linv P n l';
+Record tick_ok (v : variant) (P : nat -> Prop) (n : nat) (c : chain) (c' : chain) (l' : leader) (ev : list event) : Prop := {
+  to_linv : linv v P n l';
   to_des : c_designated c' = c_designated c;
   to_dom : c_txdom c' = c_txdom c /\ c_sigdom c' = c_sigdom c /\ c_height c' = c_height c;
   to_pool : forall e, In e (c_pool c') -> In e (c_pool c) \/ In (ESent (fst e) (snd e)) ev;
-  to_asm : forall d sc, In (EAssembled d sc) ev -> assembled_ok n d sc /\ Forall (fun s => P (sv_by s)) (tail sc);
+  to_asm : forall d sc, In (EAssembled d sc) ev -> assembled_ok v n d sc /\ Forall (fun s => P (sv_by s)) (tail sc);
   to_sent : forall id d sc, In (ESent id (WDesignate d sc)) ev ->
-            valid_witness n d sc = true /\ length sc = maj_m n /\ script_ok P n (tail sc);
+            valid_witness n d sc = true /\ length sc = maj_m n /\ script_ok v P n (tail sc);
   to_kind : forall id w, In (ESent id w) ev -> sent_ok P w
 }.
 
@@ -188,9 +188,9 @@ Lemma pool_add_spec c w c' id :
   c_txdom c' = c_txdom c /\ c_sigdom c' = c_sigdom c /\ c_height c' = c_height c.
 Proof. unfold pool_add. intros [= <- <-]. cbn. repeat split; reflexivity. Qed.
 
-Lemma gas_ok P n maxinc nonce b c l c' l' ev :
+Lemma gas_ok v P n maxinc nonce b c l c' l' ev :
   generate_and_share maxinc nonce b c l = (c', l', ev) ->
-  linv P n l' /\ c_designated c' = c_designated c /\
+  linv v P n l' /\ c_designated c' = c_designated c /\
   (c_txdom c' = c_txdom c /\ c_sigdom c' = c_sigdom c /\ c_height c' = c_height c) /\
   (forall e, In e (c_pool c') -> In e (c_pool c) \/ In (ESent (fst e) (snd e)) ev) /\
   (forall e, In e ev -> exists id w, e = ESent id w /\ is_designate w = false /\ is_sigwrite w = false).
@@ -207,10 +207,10 @@ Proof.
     split; [intros e He; left; exact He|intros e []].
 Qed.
 
-Lemma gas_tick_ok P n maxinc nonce b c l c' l' ev :
-  generate_and_share maxinc nonce b c l = (c', l', ev) -> tick_ok P n c c' l' ev.
+Lemma gas_tick_ok v P n maxinc nonce b c l c' l' ev :
+  generate_and_share maxinc nonce b c l = (c', l', ev) -> tick_ok v P n c c' l' ev.
 Proof.
-  intros H. apply (gas_ok P n) in H as (H1 & H2 & H3 & H4 & H5).
+  intros H. apply (gas_ok v P n) in H as (H1 & H2 & H3 & H4 & H5).
   split; try assumption.
   - intros d sc Hin. apply H5 in Hin as (id & w & Hw & _). discriminate.
   - intros id d sc Hin. apply H5 in Hin as (id' & w & Hw & Hd & _). injection Hw as <- <-. discriminate.
@@ -219,15 +219,15 @@ Proof.
 Qed.
 
 (** Events that may precede the outcome of the send within one tick. *)
-Definition pre_ok (P : nat -> Prop) (n : nat) (e : event) : Prop :=
+Definition pre_ok (v : variant) (P : nat -> Prop) (n : nat) (e : event) : Prop :=
   match e with
   | ERejected _ _ => True
-  | EAssembled d sc => assembled_ok n d sc /\ Forall (fun s => P (sv_by s)) (tail sc)
+  | EAssembled d sc => assembled_ok v n d sc /\ Forall (fun s => P (sv_by s)) (tail sc)
   | ESent _ _ => False
   end.
 
-Lemma tick_ok_prepend P n c c' l' ev ev0 :
-  tick_ok P n c c' l' ev -> Forall (pre_ok P n) ev0 -> tick_ok P n c c' l' (ev0 ++ ev).
+Lemma tick_ok_prepend v P n c c' l' ev ev0 :
+  tick_ok v P n c c' l' ev -> Forall (pre_ok v P n) ev0 -> tick_ok v P n c c' l' (ev0 ++ ev).
 Proof.
   intros [H1 H2 H3 H4 H5 H6 H7] H0. rewrite List.Forall_forall in H0. split; try assumption.
   - intros e He. destruct (H4 e He) as [H|H]; [left; exact H|right; apply in_or_app; right; exact H].
@@ -239,7 +239,7 @@ Proof.
     destruct (H0 _ Hin).
 Qed.
 
-Lemma tick_ok_same P n c l : linv P n l -> tick_ok P n c c l [].
+Lemma tick_ok_same v P n c l : linv v P n l -> tick_ok v P n c c l [].
 Proof.
   intros H. split; try reflexivity; try exact H; try (intros; contradiction).
   - auto.
@@ -258,10 +258,10 @@ Proof.
   destruct (valid_witness n d sc); [|discriminate]. intros _. apply Nat.eqb_eq in E. auto.
 Qed.
 
-Lemma range_map_ok P n order m :
-  m_ok P n m ->
+Lemma range_map_ok v P n order m :
+  m_ok v P n m ->
   NoDup (map sv_by (range_map order m)) /\
-  Forall (fun s => (sv_by s + 1 < n)%nat /\ P (sv_by s)) (range_map order m) /\
+  Forall (fun s => (sv_by s < v_first v + (n - 1))%nat /\ P (sv_by s)) (range_map order m) /\
   length (range_map order m) = length m.
 Proof.
   intros (Hnd & _ & Hall). pose proof (range_map_perm order m) as Hp.
@@ -274,10 +274,10 @@ Proof.
   - rewrite (Permutation_length Hp), map_length. reflexivity.
 Qed.
 
-Lemma leader_finish_ok P n maxinc nonce order c d l c' l' ev :
-  (1 <= n)%nat -> linv P n l ->
-  leader_finish n maxinc nonce order c d l = (c', l', ev) ->
-  tick_ok P n c c' l' ev.
+Lemma leader_finish_ok v P n maxinc nonce order c d l c' l' ev :
+  (1 <= n)%nat -> linv v P n l ->
+  leader_finish v n maxinc nonce order c d l = (c', l', ev) ->
+  tick_ok v P n c c' l' ev.
 Proof.
   intros Hn Hl. unfold leader_finish.
   destruct (length (l_m l) <? maj_m n - 1)%nat eqn:Elen; [intros [= <- <- <-]; apply tick_ok_same; exact Hl|].
@@ -285,10 +285,11 @@ Proof.
   destruct (l_tried l) eqn:Etried; [apply gas_tick_ok|].
   pose proof (maj_m_pos n Hn) as Hpos.
   assert (Hlen : length (l_m l) = (maj_m n - 1)%nat) by (destruct Hl as (_ & (_ & Hle & _) & _); lia).
-  pose proof (range_map_ok P n order (l_m l) (proj1 (proj2 Hl))) as (Hrnd & Hrall & Hrlen).
+  unfold assemble. set (order' := if v_sorted v then seq 0 (S n) else order).
+  pose proof (range_map_ok v P n order' (l_m l) (proj1 (proj2 Hl))) as (Hrnd & Hrall & Hrlen).
   (* the (possibly) finalised leader and the event of finalisation *)
   set (lev := if l_full l then _ else _).
-  assert (Hlev : linv P n (fst lev) /\ Forall (pre_ok P n) (snd lev) /\
+  assert (Hlev : linv v P n (fst lev) /\ Forall (pre_ok v P n) (snd lev) /\
                  l_m (fst lev) = l_m l).
   { subst lev. destruct (l_full l) eqn:Ef; cbn [fst snd].
     - split; [exact Hl|]. split; [constructor|reflexivity].
@@ -302,14 +303,14 @@ Proof.
       + cbn [tail]. eapply List.Forall_impl; [|exact Hrall]. intros s [_ H]. exact H. }
   destruct lev as [l1 ev1]. cbn [fst snd] in Hlev. destruct Hlev as (Hl1 & Hev1 & Hm1).
   set (w := WDesignate d (mkSig 0 d :: l_script l1)).
-  set (v0 := node_verdict n d (mkSig 0 d :: l_script l1)).
-  assert (Hv0 : v0 = VAccepted -> valid_witness n d (mkSig 0 d :: l_script l1) = true /\
+  set (vd0 := node_verdict n d (mkSig 0 d :: l_script l1)).
+  assert (Hv0 : vd0 = VAccepted -> valid_witness n d (mkSig 0 d :: l_script l1) = true /\
                                  length (mkSig 0 d :: l_script l1) = maj_m n).
-  { subst v0. apply node_verdict_accepted. }
-  set (v := match v0 with VAccepted => _ | _ => v0 end).
-  assert (Hv : v = VAccepted -> v0 = VAccepted).
-  { subst v. destruct v0; try discriminate; auto. }
-  clearbody v. destruct v.
+  { subst vd0. apply node_verdict_accepted. }
+  set (vd := match vd0 with VAccepted => _ | _ => vd0 end).
+  assert (Hv : vd = VAccepted -> vd0 = VAccepted).
+  { subst vd. destruct vd0; try discriminate; auto. }
+  clearbody vd. destruct vd.
   - (* accepted *)
     destruct (pool_add c w) as [c1 id] eqn:Ep. intros [= <- <- <-].
     apply pool_add_spec in Ep as (Hp & Hd & Ht & Hs & Hh).
@@ -330,7 +331,7 @@ Proof.
     apply Forall_app. split; [exact Hev1|]. constructor; [exact I|constructor].
   - (* verification failed *)
     destruct (generate_and_share maxinc nonce true c l1) as [[c1 l2] ev2] eqn:Eg. intros [= <- <- <-].
-    apply tick_ok_prepend; [apply (gas_tick_ok P n) in Eg; exact Eg|].
+    apply tick_ok_prepend; [apply (gas_tick_ok v P n) in Eg; exact Eg|].
     apply Forall_app. split; [exact Hev1|]. constructor; [exact I|constructor].
   - (* already known *)
     intros [= <- <- <-]. rewrite <- (app_nil_r (ev1 ++ _)).
@@ -341,10 +342,10 @@ Qed.
 (** The leader tick preserves the local invariant, changes the chain only
     by pooling what it reports as sent, and everything it assembles is
     well-formed. *)
-Lemma leader_tick_ok P n maxinc nonce order c l c' l' ev :
-  (1 <= n)%nat -> recs_ok P c -> linv P n l ->
-  leader_tick n maxinc nonce order c l = (c', l', ev) ->
-  tick_ok P n c c' l' ev.
+Lemma leader_tick_ok v P n maxinc nonce order c l c' l' ev :
+  (1 <= n)%nat -> recs_ok P c -> linv v P n l ->
+  leader_tick v n maxinc nonce order c l = (c', l', ev) ->
+  tick_ok v P n c c' l' ev.
 Proof.
   intros Hn Hc Hl. unfold leader_tick.
   destruct (lookup_tx c) as [| |d].
@@ -361,18 +362,18 @@ Proof.
     apply gas_tick_ok.
   - destruct (d_vub d <? c_height c); [apply gas_tick_ok|].
     set (l1 := if bool_decide (l_tx l = Some d) then l else _).
-    assert (Hl1 : linv P n l1).
+    assert (Hl1 : linv v P n l1).
     { subst l1. destruct (bool_decide (l_tx l = Some d)); [exact Hl|].
       destruct Hl as (_ & Hm & _). split; [reflexivity|]. split; [exact Hm|left; reflexivity]. }
     clearbody l1. clear Hl l. rename l1 into l, Hl1 into Hl.
     set (need := (maj_m n - 1)%nat).
     set (collected := if (length (l_m l) <? need)%nat then _ else _).
     assert (Hcol : match collected with
-                   | CContinue m' _ | CBreak m' => m_ok P n m'
+                   | CContinue m' _ | CBreak m' => m_ok v P n m'
                    | CRegenerate => True end).
     { subst collected. destruct (length (l_m l) <? need)%nat eqn:E.
-      - pose proof (collect_loop_ok P n c d (seq 0 (n - 1)) (l_m l) 0%nat Hc (seq_bound n) (proj1 (proj2 Hl)) ltac:(subst need; lia)) as H.
-        fold need in H. destruct (collect_loop n c d need (l_m l) 0 (seq 0 (n - 1))); [apply H|exact H|exact I].
+      - pose proof (collect_loop_ok v P n c d (seq (v_first v) (n - 1)) (l_m l) 0%nat Hc (seq_bound v n) (proj1 (proj2 Hl)) ltac:(subst need; lia)) as H.
+        fold need in H. destruct (collect_loop n c d need (l_m l) 0 (seq (v_first v) (n - 1))); [apply H|exact H|exact I].
       - exact (proj1 (proj2 Hl)). }
     destruct collected as [m inv|m|]; [| |apply gas_tick_ok].
     + apply leader_finish_ok; [exact Hn|]. split; [exact (proj1 Hl)|split; [exact Hcol|exact (proj2 (proj2 Hl))]].
@@ -381,9 +382,9 @@ Qed.
 
 (** * Signer and solo ticks *)
 
-Lemma tick_ok_send P n c c1 id w l :
-  linv P n l -> pool_add c w = (c1, id) -> is_designate w = false -> sent_ok P w ->
-  tick_ok P n c c1 l [ESent id w].
+Lemma tick_ok_send v P n c c1 id w l :
+  linv v P n l -> pool_add c w = (c1, id) -> is_designate w = false -> sent_ok P w ->
+  tick_ok v P n c c1 l [ESent id w].
 Proof.
   intros Hl Ep Hw Hk. apply pool_add_spec in Ep as (Hp & Hd & Ht & Hs & Hh).
   split; try assumption; try (repeat split; assumption).
@@ -393,8 +394,8 @@ Proof.
   - intros id' w' [H|[]]. injection H as _ <-. exact Hk.
 Qed.
 
-Lemma signer_tick_ok (P : nat -> Prop) n k c sg c' sg' ev l :
-  P k -> linv P n l -> signer_tick k c sg = (c', sg', ev) -> tick_ok P n c c' l ev.
+Lemma signer_tick_ok v (P : nat -> Prop) n k c sg c' sg' ev l :
+  P k -> linv v P n l -> signer_tick k c sg = (c', sg', ev) -> tick_ok v P n c c' l ev.
 Proof.
   intros Hk Hl. unfold signer_tick.
   destruct (lookup_tx c) as [| |d]; try (intros [= <- <- <-]; apply tick_ok_same; exact Hl).
@@ -413,8 +414,8 @@ Proof.
     eapply tick_ok_send; eauto; exact Hk.
 Qed.
 
-Lemma solo_tick_ok P nonce c p c' p' ev l :
-  linv P 1 l -> solo_tick nonce c p = (c', p', ev) -> tick_ok P 1 c c' l ev.
+Lemma solo_tick_ok v P nonce c p c' p' ev l :
+  linv v P 1 l -> solo_tick nonce c p = (c', p', ev) -> tick_ok v P 1 c c' l ev.
 Proof.
   intros Hl. unfold solo_tick.
   destruct (bool_decide (is_Some p)); [intros [= <- <- <-]; apply tick_ok_same; exact Hl|].
@@ -431,22 +432,22 @@ Qed.
 
 (** * Global invariant over histories *)
 
-Definition ginv (P : nat -> Prop) (n : nat) (s : pstate) (evs : list event) : Prop :=
-  linv P n (p_leader s) /\
+Definition ginv (v : variant) (P : nat -> Prop) (n : nat) (s : pstate) (evs : list event) : Prop :=
+  linv v P n (p_leader s) /\
   (forall e, In e (c_pool (p_chain s)) -> In (ESent (fst e) (snd e)) evs) /\
   (c_designated (p_chain s) = true -> exists id d sc, In (ESent id (WDesignate d sc)) evs) /\
-  (forall d sc, In (EAssembled d sc) evs -> assembled_ok n d sc /\ Forall (fun s => P (sv_by s)) (tail sc)) /\
+  (forall d sc, In (EAssembled d sc) evs -> assembled_ok v n d sc /\ Forall (fun s => P (sv_by s)) (tail sc)) /\
   (forall id d sc, In (ESent id (WDesignate d sc)) evs ->
-     valid_witness n d sc = true /\ length sc = maj_m n /\ script_ok P n (tail sc)).
+     valid_witness n d sc = true /\ length sc = maj_m n /\ script_ok v P n (tail sc)).
 
-Lemma ginv_init P n h0 : ginv P n (pinit h0) [].
+Lemma ginv_init v P n h0 : ginv v P n (pinit h0) [].
 Proof.
   split; [apply linv_leader0|]. split; [intros e []|]. split; [discriminate|].
   split; intros; contradiction.
 Qed.
 
-Lemma ginv_tick P n c l sg so c' l' sg' so' ev evs :
-  tick_ok P n c c' l' ev -> ginv P n (mkP c l sg so) evs -> ginv P n (mkP c' l' sg' so') (evs ++ ev).
+Lemma ginv_tick v P n c l sg so c' l' sg' so' ev evs :
+  tick_ok v P n c c' l' ev -> ginv v P n (mkP c l sg so) evs -> ginv v P n (mkP c' l' sg' so') (evs ++ ev).
 Proof.
   intros [T1 T2 T3 T4 T5 T6 _] (G1 & G2 & G3 & G4 & G5). unfold ginv. cbn [p_chain p_leader] in *.
   split; [exact T1|]. split; [|split; [|split]].
@@ -476,11 +477,11 @@ Proof.
   apply elem_of_list_In. eapply elem_of_list_lookup_2. exact H.
 Qed.
 
-Lemma linv_flags P n l r s : linv P n l ->
-  linv P n (mkLeader (l_tx l) (l_script l) (l_m l) (l_full l) (l_tried l) r s).
+Lemma linv_flags v P n l r s : linv v P n l ->
+  linv v P n (mkLeader (l_tx l) (l_script l) (l_m l) (l_full l) (l_tried l) r s).
 Proof. intros H. exact H. Qed.
 
-Lemma land_ginv P n id s evs : ginv P n s evs -> ginv P n (land id s) evs.
+Lemma land_ginv v P n id s evs : ginv v P n s evs -> ginv v P n (land id s) evs.
 Proof.
   intros G. unfold land.
   destruct (list_find _ (c_pool (p_chain s))) as [[pos [id' w]]|] eqn:Ef; [|exact G].
@@ -495,18 +496,18 @@ Proof.
     destruct w; try discriminate. exists id', d, script. exact (G2 _ Hin).
 Qed.
 
-Lemma land_all_ginv P n ids : forall s evs,
-  ginv P n s evs -> ginv P n (fold_left (fun s (e : nat * write) => land (fst e) s) ids s) evs.
+Lemma land_all_ginv v P n ids : forall s evs,
+  ginv v P n s evs -> ginv v P n (fold_left (fun s (e : nat * write) => land (fst e) s) ids s) evs.
 Proof.
   induction ids as [|e ids IH]; intros s evs G; [exact G|]. cbn [fold_left]. apply IH. apply land_ginv. exact G.
 Qed.
 
 (** One step of any label, under a chain-side premise that bounds what the
     leader may collect. *)
-Lemma pstep_ginv P n maxinc s lb s' ev evs :
+Lemma pstep_ginv v P n maxinc s lb s' ev evs :
   (1 <= n)%nat -> recs_ok P (p_chain s) ->
   (forall k nonce order, lb = LTick k nonce order -> k <> 0%nat -> P k) ->
-  pstep n maxinc s lb = (s', ev) -> ginv P n s evs -> ginv P n s' (evs ++ ev).
+  pstep v n maxinc s lb = (s', ev) -> ginv v P n s evs -> ginv v P n s' (evs ++ ev).
 Proof.
   intros Hn Hc HP Hstep G. destruct s as [c l sg so]. destruct lb as [k nonce order|k|id| | |i recs]; cbn [pstep p_chain p_leader p_signers p_solo] in Hstep.
   - destruct (c_designated c || negb (k <? n)%nat); [injection Hstep as <- <-; rewrite app_nil_r; exact G|].
@@ -515,7 +516,7 @@ Proof.
       destruct (solo_tick nonce c so) as [[c1 p1] ev1] eqn:Et. injection Hstep as <- <-.
       eapply ginv_tick; [|exact G]. eapply solo_tick_ok; [exact (proj1 G)|exact Et].
     + destruct (k =? 0)%nat eqn:E0.
-      * destruct (leader_tick n maxinc nonce order c l) as [[c1 l1] ev1] eqn:Et. injection Hstep as <- <-.
+      * destruct (leader_tick v n maxinc nonce order c l) as [[c1 l1] ev1] eqn:Et. injection Hstep as <- <-.
         eapply ginv_tick; [|exact G]. eapply leader_tick_ok; [exact Hn|exact Hc|exact (proj1 G)|exact Et].
       * destruct (signer_tick k c _) as [[c1 sg1] ev1] eqn:Et. injection Hstep as <- <-.
         eapply ginv_tick; [|exact G]. apply Nat.eqb_neq in E0.
@@ -534,14 +535,14 @@ Qed.
 Lemma recs_ok_True c : recs_ok (fun _ => True) c.
 Proof. intros i r _ _. exact I. Qed.
 
-Lemma prun_ginv_True n maxinc ls : forall s evs0,
-  (1 <= n)%nat -> ginv (fun _ => True) n s evs0 ->
-  ginv (fun _ => True) n (fst (prun n maxinc s ls)) (evs0 ++ snd (prun n maxinc s ls)).
+Lemma prun_ginv_True v n maxinc ls : forall s evs0,
+  (1 <= n)%nat -> ginv v (fun _ => True) n s evs0 ->
+  ginv v (fun _ => True) n (fst (prun v n maxinc s ls)) (evs0 ++ snd (prun v n maxinc s ls)).
 Proof.
   induction ls as [|lb ls IH]; intros s evs0 Hn G; cbn [prun fst snd]; [rewrite app_nil_r; exact G|].
-  destruct (pstep n maxinc s lb) as [s1 ev1] eqn:Es.
+  destruct (pstep v n maxinc s lb) as [s1 ev1] eqn:Es.
   specialize (IH s1 (evs0 ++ ev1) Hn).
-  destruct (prun n maxinc s1 ls) as [s2 evs2]. cbn [fst snd] in *.
+  destruct (prun v n maxinc s1 ls) as [s2 evs2]. cbn [fst snd] in *.
   rewrite app_assoc. apply IH.
   eapply pstep_ginv; [exact Hn|apply recs_ok_True| |exact Es|exact G]. intros; exact I.
 Qed.
@@ -570,8 +571,8 @@ Proof.
   specialize (Ha i (r :: recs) r E ltac:(left; reflexivity)). unfold sig_honest in Ha. rewrite Hby in Ha. exact Ha.
 Qed.
 
-Lemma chain_honest_tick live n c c' l' ev :
-  tick_ok (Plive live) n c c' l' ev -> chain_honest live c -> chain_honest live c'.
+Lemma chain_honest_tick v live n c c' l' ev :
+  tick_ok v (Plive live) n c c' l' ev -> chain_honest live c -> chain_honest live c'.
 Proof.
   intros [_ _ (Ht & Hs & Hh) Hp _ _ Hk] [Ha Hb]. split.
   - rewrite Hs. exact Ha.
@@ -625,11 +626,11 @@ Proof.
   induction ids as [|e ids IH]; intros s H; [exact H|]. cbn [fold_left]. apply IH. apply land_honest. exact H.
 Qed.
 
-Lemma pstep_honest live n maxinc s lb s' ev evs :
+Lemma pstep_honest v live n maxinc s lb s' ev evs :
   (1 <= n)%nat -> honest live lb ->
-  pstep n maxinc s lb = (s', ev) ->
-  ginv (Plive live) n s evs -> chain_honest live (p_chain s) ->
-  ginv (Plive live) n s' (evs ++ ev) /\ chain_honest live (p_chain s').
+  pstep v n maxinc s lb = (s', ev) ->
+  ginv v (Plive live) n s evs -> chain_honest live (p_chain s) ->
+  ginv v (Plive live) n s' (evs ++ ev) /\ chain_honest live (p_chain s').
 Proof.
   intros Hn Hh Hstep G Hc. split.
   - eapply pstep_ginv; [exact Hn|apply chain_honest_recs_ok; exact Hc| |exact Hstep|exact G].
@@ -641,7 +642,7 @@ Proof.
         destruct (solo_tick nonce c so) as [[c1 p1] ev1] eqn:Et. injection Hstep as <- <-. cbn [p_chain].
         eapply chain_honest_tick; [|exact Hc]. eapply solo_tick_ok; [exact (proj1 G)|exact Et].
       * destruct (k =? 0)%nat eqn:E0.
-        -- destruct (leader_tick n maxinc nonce order c l) as [[c1 l1] ev1] eqn:Et. injection Hstep as <- <-. cbn [p_chain].
+        -- destruct (leader_tick v n maxinc nonce order c l) as [[c1 l1] ev1] eqn:Et. injection Hstep as <- <-. cbn [p_chain].
            eapply chain_honest_tick; [|exact Hc].
            eapply leader_tick_ok; [exact Hn|apply chain_honest_recs_ok; exact Hc|exact (proj1 G)|exact Et].
         -- destruct (signer_tick k c _) as [[c1 sg1] ev1] eqn:Et. injection Hstep as <- <-. cbn [p_chain].
@@ -654,17 +655,17 @@ Proof.
     + destruct Hh.
 Qed.
 
-Lemma prun_honest live n maxinc ls : forall s evs0,
+Lemma prun_honest v live n maxinc ls : forall s evs0,
   (1 <= n)%nat -> Forall (honest live) ls ->
-  ginv (Plive live) n s evs0 -> chain_honest live (p_chain s) ->
-  ginv (Plive live) n (fst (prun n maxinc s ls)) (evs0 ++ snd (prun n maxinc s ls)).
+  ginv v (Plive live) n s evs0 -> chain_honest live (p_chain s) ->
+  ginv v (Plive live) n (fst (prun v n maxinc s ls)) (evs0 ++ snd (prun v n maxinc s ls)).
 Proof.
   induction ls as [|lb ls IH]; intros s evs0 Hn Hh G Hc; cbn [prun fst snd]; [rewrite app_nil_r; exact G|].
   apply Forall_cons_1 in Hh as [Hh Hhs].
-  destruct (pstep n maxinc s lb) as [s1 ev1] eqn:Es.
-  destruct (pstep_honest live n maxinc s lb s1 ev1 evs0 Hn Hh Es G Hc) as [G1 Hc1].
+  destruct (pstep v n maxinc s lb) as [s1 ev1] eqn:Es.
+  destruct (pstep_honest v live n maxinc s lb s1 ev1 evs0 Hn Hh Es G Hc) as [G1 Hc1].
   specialize (IH s1 (evs0 ++ ev1) Hn Hhs G1 Hc1).
-  destruct (prun n maxinc s1 ls) as [s2 evs2]. cbn [fst snd] in *.
+  destruct (prun v n maxinc s1 ls) as [s2 evs2]. cbn [fst snd] in *.
   rewrite app_assoc. exact IH.
 Qed.
 
@@ -678,14 +679,16 @@ Qed.
 (** * Pigeonhole: how many signatures the leader can ever hold *)
 
 (** Live members whose signature domain the leader's loop reads and checks
-    with their own key: indices 1 .. n-2 (notary.go:390-391,426 against 629). *)
-Definition readable (n : nat) (live : nat -> bool) : nat :=
-  length (List.filter live (seq 1 (n - 2))).
+    with their own key (the loop visits [v_first v .. v_first v + n - 2],
+    member k >= 1 writes domain k): indices 1..n-2 before fix 70faaf5,
+    1..n-1 since. *)
+Definition readable (v : variant) (n : nat) (live : nat -> bool) : nat :=
+  length (List.filter live (seq 1 (v_first v + (n - 1) - 1))).
 
-Lemma readable_bound n live (sc : list sigval) :
+Lemma readable_bound v n live (sc : list sigval) :
   NoDup (map sv_by sc) ->
-  Forall (fun s => (sv_by s + 1 < n)%nat /\ Plive live (sv_by s)) sc ->
-  (length sc <= readable n live)%nat.
+  Forall (fun s => (sv_by s < v_first v + (n - 1))%nat /\ Plive live (sv_by s)) sc ->
+  (length sc <= readable v n live)%nat.
 Proof.
   intros Hnd Hall. rewrite <- (map_length sv_by). unfold readable.
   apply NoDup_incl_length; [apply NoDup_ListNoDup; exact Hnd|].
@@ -697,26 +700,26 @@ Qed.
 (** If fewer than [maj_m n - 1] live members are readable, no history of
     the live members (any interleaving, restarts, delays) ever assembles a
     witness, sends a designation, or gets the role designated. *)
-Lemma blocked n maxinc h0 live ls :
-  (2 <= n)%nat -> (readable n live < maj_m n - 1)%nat ->
+Lemma blocked v n maxinc h0 live ls :
+  (2 <= n)%nat -> (readable v n live < maj_m n - 1)%nat ->
   Forall (honest live) ls ->
-  let r := prun n maxinc (pinit h0) ls in
+  let r := prun v n maxinc (pinit h0) ls in
   (forall d sc, ~ In (EAssembled d sc) (snd r)) /\
   (forall id d sc, ~ In (ESent id (WDesignate d sc)) (snd r)) /\
   c_designated (p_chain (fst r)) = false.
 Proof.
   intros Hn Hr Hh r.
-  pose proof (prun_honest live n maxinc ls (pinit h0) [] ltac:(lia) Hh (ginv_init _ n h0) (chain_honest_init live h0)) as G.
+  pose proof (prun_honest v live n maxinc ls (pinit h0) [] ltac:(lia) Hh (ginv_init _ _ n h0) (chain_honest_init live h0)) as G.
   fold r in G. cbn [app] in G. destruct G as (_ & _ & G3 & G4 & G5).
   assert (H2 : forall id d sc, ~ In (ESent id (WDesignate d sc)) (snd r)).
   { intros id d sc Hin. destruct (G5 id d sc Hin) as (_ & Hlen & [Hnil|(Hl & Hnd & Hall)]).
     - destruct sc as [|s0 sc]; cbn [tail length] in *; [lia|]. subst sc. cbn [length] in Hlen. lia.
-    - pose proof (readable_bound n live (tail sc) Hnd Hall). lia. }
+    - pose proof (readable_bound v n live (tail sc) Hnd Hall). lia. }
   split; [|split; [exact H2|]].
   - intros d sc Hin. destruct (G4 d sc Hin) as ((Hlen & _ & Hnd & Hb) & HP).
-    assert (Hall : Forall (fun s => (sv_by s + 1 < n)%nat /\ Plive live (sv_by s)) (tail sc)).
+    assert (Hall : Forall (fun s => (sv_by s < v_first v + (n - 1))%nat /\ Plive live (sv_by s)) (tail sc)).
     { rewrite List.Forall_forall in *. intros s Hs. split; [apply Hb; exact Hs|apply HP; exact Hs]. }
-    pose proof (readable_bound n live (tail sc) Hnd Hall) as Hle.
+    pose proof (readable_bound v n live (tail sc) Hnd Hall) as Hle.
     destruct sc as [|s0 sc]; cbn [tail length] in *; lia.
   - destruct (c_designated (p_chain (fst r))) eqn:E; [|reflexivity].
     destruct (G3 eq_refl) as (id & d & sc & Hin). destruct (H2 id d sc Hin).
@@ -728,8 +731,8 @@ Qed.
     enough readable members are live. *)
 Definition partial_check (n : nat) (mask : list bool) : bool :=
   Bool.eqb
-    (c_designated (p_chain (fst (prun n 5760 (pinit 0) (fair_rounds 8 (members mask) 1 (seq 0 n))))))
-    (maj_m n - 1 <=? readable n (live_of mask))%nat.
+    (c_designated (p_chain (fst (prun as_pinned n 5760 (pinit 0) (fair_rounds 8 (members mask) 1 (seq 0 n))))))
+    (maj_m n - 1 <=? readable as_pinned n (live_of mask))%nat.
 
 Lemma all_masks_complete n : forall mask, length mask = n -> In mask (all_masks n).
 Proof.
@@ -751,3 +754,15 @@ Proof.
     try (right; apply IH; exact H). injection H as -> ->. left. reflexivity.
 Qed.
 
+
+(** The same check for the repaired variant: designated iff a majority
+    (including the leader) is live. The map order is irrelevant there. *)
+Definition live_count (n : nat) (live : nat -> bool) : nat := length (List.filter live (seq 0 n)).
+
+Definition repaired_check (n : nat) (mask : list bool) : bool :=
+  Bool.eqb
+    (c_designated (p_chain (fst (prun as_repaired n 5760 (pinit 0) (fair_rounds 8 (members mask) 1 [])))))
+    (maj_m n <=? live_count n (live_of mask))%nat.
+
+Lemma assemble_repaired_order n o1 o2 m : assemble as_repaired n o1 m = assemble as_repaired n o2 m.
+Proof. reflexivity. Qed.
